@@ -1,5 +1,5 @@
 CONSTANTS Years <- GenYears MaxMonths = 3 MVals <- GenVals
 INIT Init
 NEXT Next
-CONSTRAINT Dump
+INVARIANT Dump
 CHECK_DEADLOCK FALSE
